@@ -2,6 +2,7 @@ package updog
 
 import (
 	"encoding/binary"
+	"errors"
 	"fmt"
 	"math/bits"
 	"sort"
@@ -37,6 +38,10 @@ func (idx *Index) Execute(q *Query) (*Result, error) {
 
 	idx.mtx.RLock()
 	defer idx.mtx.RUnlock()
+
+	if err := validateExpr(q.Expr); err != nil {
+		return nil, err
+	}
 
 	if err := q.populateGroupBy(q.GroupBy, idx.schema); err != nil {
 		return nil, err
@@ -83,6 +88,47 @@ type Expression interface {
 	eval(idx *Index) (*roaring.Bitmap, error)
 	String() string
 	cacheKey() uint64
+}
+
+// validateExpr checks that an expression tree is complete, i.e. that no expression or
+// operand is missing. Incomplete trees can result from queries received over the network.
+func validateExpr(e Expression) error {
+	switch v := e.(type) {
+	case nil:
+		return errors.New("incomplete query: expression missing")
+	case *ExprEqual:
+		if v == nil {
+			return errors.New("incomplete query: expression missing")
+		}
+	case *ExprNot:
+		if v == nil {
+			return errors.New("incomplete query: expression missing")
+		}
+
+		return validateExpr(v.Expr)
+	case *ExprAnd:
+		if v == nil {
+			return errors.New("incomplete query: expression missing")
+		}
+
+		for _, ee := range v.Exprs {
+			if err := validateExpr(ee); err != nil {
+				return err
+			}
+		}
+	case *ExprOr:
+		if v == nil {
+			return errors.New("incomplete query: expression missing")
+		}
+
+		for _, ee := range v.Exprs {
+			if err := validateExpr(ee); err != nil {
+				return err
+			}
+		}
+	}
+
+	return nil
 }
 
 func (q *Query) populateGroupBy(columns []string, sch *schema) error {
